@@ -30,8 +30,16 @@
 -- an ill-formed FRI schedule) is `Except.error <site>`.  Elements are coordinate lists of raw words (`El`); main
 -- trace cells are base elements `[c]`.  FFT-based steps are modelled by their values (evaluation / interpolation on
 -- the coset), as in Model.Composition and Model.Fri.
--- Not modelled: auxiliary segment / Lagrange kernel column; the debug-only `validate_transition_degrees`
--- (declared degree below the actual one) and `infer_degree` assertions.
+-- AUXILIARY SEGMENT (no Lagrange kernel column): after the main commitment `get_aux_rand_elements` draws the
+-- random elements, the family's `build_aux_trace` (harness/src/genair.rs `build_aux_columns`: pointwise columns
+-- `F:` and accumulators `A<init>:<step>` evaluated row by row, generation rules may divide) fills the columns,
+-- `set_aux_trace` interpolates / extends / commits them (second trace commitment, reseed), the auxiliary
+-- transition constraints and boundary assertions enter the composition (Model.Composition), the auxiliary columns
+-- follow the main ones in the OOD frame and in the DEEP composition, and are opened by a second batch opening
+-- (`phase1Aux`).
+-- Not modelled: Lagrange kernel column / GKR prover; the validation of the auxiliary segment by the debug-build
+-- `Trace::validate` (the family's auxiliary columns satisfy their constraints by construction); the debug-only
+-- `validate_transition_degrees` (declared degree below the actual one) and `infer_degree` assertions.
 -- No Mathlib.  Tied to the real prover by the `refp` op of harness/src/bin/c01.rs: IDENTICAL proof bytes.
 import Winter.Model.RefVerifier
 import Winter.Model.Fri
@@ -186,6 +194,150 @@ def friQueryLayers (J : Inst) (N : Nat) : List Commit → List Nat → Nat → P
         | .ok os => .ok (o :: os)
         | .error e => .error e
 
+/-! ## 4b. The auxiliary segment of the family: generation rules and `build_aux_trace` -/
+
+/-- generation expressions (genair `Expr`, including the division generation rules may use) -/
+inductive GExpr where
+  | const (v : Nat) | cur (i : Nat) | nxt (i : Nat) | per (i : Nat) | acur (i : Nat) | anxt (i : Nat)
+  | rand (i : Nat) | pub (i : Nat) | pubSeq (i : Nat)
+  | add (a b : GExpr) | sub (a b : GExpr) | mul (a b : GExpr) | div (a b : GExpr) | pow (a : GExpr) (k : Nat)
+  | neg (a : GExpr)
+  deriving Repr, Inhabited
+
+/-- prefix parser of genair's `parse_expr` (all atoms and operators); fuel = remaining nesting depth -/
+def parseGExpr : Nat → List Char → Option (GExpr × List Char)
+  | 0, _ => none
+  | _ + 1, [] => none
+  | fuel + 1, c :: rest =>
+    let idx (mk : Nat → GExpr) : Option (GExpr × List Char) :=
+      match VerifierChecks.parseNum rest with
+      | some (v, r) => if v > 100000 then none else some (mk v, r)
+      | none => none
+    let bin (mk : GExpr → GExpr → GExpr) : Option (GExpr × List Char) :=
+      match parseGExpr fuel rest with
+      | some (x, r1) =>
+        match parseGExpr fuel r1 with
+        | some (y, r2) => some (mk x y, r2)
+        | none => none
+      | none => none
+    if c = 'k' then
+      match VerifierChecks.parseNum rest with
+      | some (v, r) => if v < VerifierChecks.u128Lim then some (.const v, r) else none
+      | none => none
+    else if c = 'c' then idx .cur
+    else if c = 'n' then idx .nxt
+    else if c = 'p' then idx .per
+    else if c = 'a' then idx .acur
+    else if c = 'b' then idx .anxt
+    else if c = 'r' then idx .rand
+    else if c = 'v' then idx .pub
+    else if c = 'w' then idx .pubSeq
+    else if c = '+' then bin .add
+    else if c = '-' then bin .sub
+    else if c = '*' then bin .mul
+    else if c = '/' then bin .div
+    else if c = '^' then
+      match VerifierChecks.parseNum rest with
+      | some (k, r) =>
+        if k > 64 then none
+        else
+          match parseGExpr fuel r with
+          | some (x, r2) => some (.pow x k, r2)
+          | none => none
+      | none => none
+    else if c = '~' then
+      match parseGExpr fuel rest with
+      | some (x, r) => some (.neg x, r)
+      | none => none
+    else none
+
+/-- how the family's prover fills an auxiliary column (`AuxGen`) -/
+inductive AuxGen where
+  | fn (e : GExpr)
+  | acc (init step : GExpr)
+  deriving Repr
+
+/-- `F:<expr>` | `A<init>:<step>` -/
+def parseAuxGen (s : String) : Option AuxGen :=
+  match s.toList with
+  | 'F' :: ':' :: rest =>
+    (match parseGExpr 202 rest with
+     | some (e, []) => some (.fn e)
+     | _ => none)
+  | 'A' :: rest =>
+    (match parseGExpr 202 rest with
+     | some (i, ':' :: rest2) =>
+       (match parseGExpr 202 rest2 with
+        | some (st, []) => some (.acc i st)
+        | _ => none)
+     | _ => none)
+  | _ => none
+
+/-- the `h=` field of a description line: the generation rules of the auxiliary columns (`[]` without it) -/
+def parseAuxGens (line : String) : Option (List AuxGen) :=
+  match (VerifierChecks.nonEmpty (line.splitOn ";")).filter (·.startsWith "h=") with
+  | [] => some []
+  | [h] => (VerifierChecks.nonEmpty ((h.drop 2).toString.splitOn ",")).mapM parseAuxGen
+  | _ => none
+
+/-- the slices of genair's `Env`; an index out of range is a panic (`none`) -/
+structure GEnv where
+  cur : List El
+  nxt : List El
+  per : List El
+  acur : List El
+  anxt : List El
+  rand : List El
+
+/-- `Expr::eval` (public inputs are the empty slice in `build_aux_columns`: they read as zero) -/
+def GExpr.eval (E : EOps) (env : GEnv) : GExpr → Option El
+  | .const v => some (embedInt E v)
+  | .cur i => env.cur[i]?
+  | .nxt i => env.nxt[i]?
+  | .per i => env.per[i]?
+  | .acur i => env.acur[i]?
+  | .anxt i => env.anxt[i]?
+  | .rand i => env.rand[i]?
+  | .pub _ => some E.zero
+  | .pubSeq _ => some E.zero
+  | .add a b => match a.eval E env, b.eval E env with | some x, some y => some (E.add x y) | _, _ => none
+  | .sub a b => match a.eval E env, b.eval E env with | some x, some y => some (E.sub x y) | _, _ => none
+  | .mul a b => match a.eval E env, b.eval E env with | some x, some y => some (E.mul x y) | _, _ => none
+  | .div a b => match a.eval E env, b.eval E env with | some x, some y => some (E.mul x (E.inv y)) | _, _ => none
+  | .pow a k => (a.eval E env).map fun x => E.pow x k
+  | .neg a => (a.eval E env).map fun x => E.sub E.zero x
+
+/-- one row of `build_aux_columns`: the columns in order, each seeing the cells of this row filled so far (the others
+    zero); `before` = the previous auxiliary row (`none` for row 0) -/
+def auxRow (E : EOps) (gens : List AuxGen) (rands cur nxt per prev pper : List El) (before : Option (List El)) :
+    Option (List El) :=
+  (List.range gens.length).foldlM (fun (here : List El) j =>
+    match gens[j]? with
+    | none => none
+    | some g =>
+      let v := match g with
+        | .fn e => e.eval E ⟨cur, nxt, per, here, [], rands⟩
+        | .acc init step =>
+          match before with
+          | none => init.eval E ⟨[], [], [], [], [], rands⟩
+          | some b => step.eval E ⟨prev, cur, pper, b, here, rands⟩
+      v.map fun x => here.set j x) (List.replicate gens.length E.zero)
+
+/-- `build_aux_columns` (without Lagrange kernel column): the auxiliary columns, row by row; `mainRows` are the rows
+    of the main segment embedded into `E`, `perRows` the periodic values per step -/
+def buildAux (E : EOps) (gens : List AuxGen) (rands : List El) (mainRows perRows : List (List El)) :
+    Option (List (List El)) :=
+  let n := mainRows.length
+  let rows := (List.range n).foldlM (fun (acc : List (List El)) r =>
+    let cur := (mainRows[r]?).getD []
+    let nxt := (mainRows[(r + 1) % n]?).getD []
+    let per := (perRows[r]?).getD []
+    let prev := if r = 0 then [] else (mainRows[r - 1]?).getD []
+    let pper := if r = 0 then [] else (perRows[r - 1]?).getD []
+    let before := if r = 0 then none else acc[r - 1]?
+    (auxRow E gens rands cur nxt per prev pper before).map fun row => acc ++ [row]) []
+  rows.map fun rs => (List.range gens.length).map fun j => rs.map fun row => (row[j]?).getD E.zero
+
 /-! ## 5. The run of the prover: everything the proof is made of, as values
 
 `generate_proof` is split into three phases (commitments up to the DEEP evaluations; FRI commit phase; proof of
@@ -198,6 +350,10 @@ def ldePoints (J : Inst) (lde : Nat) : List El := xCoordinates (baseOps J.I J.no
 /-- `Context::new` for a single-segment trace of the description's shape -/
 def contextOf (J : Inst) (d : Desc) (o : Serde.ProofOptions) : Serde.Context :=
   ⟨⟨d.air.width, 0, 0, d.air.n, []⟩, (frontAir J d).modulusBytes, o⟩
+
+/-- `Context::new` for the two-segment trace of a description with an auxiliary segment -/
+def contextAux (J : Inst) (d : Desc) (x : AuxDesc) (o : Serde.ProofOptions) : Serde.Context :=
+  ⟨⟨d.air.width, x.width, x.numRands, d.air.n, []⟩, (frontAir J d).modulusBytes, o⟩
 
 /-- steps 0–5 of `generate_proof`: what exists when the FRI prover is started -/
 structure Phase1 where
@@ -226,6 +382,10 @@ structure Phase1 where
   c7 : CoinSt
   deepCoeffs : List El
   deepEvals : List El
+  /-- the auxiliary segment, if there is one: random elements, commitment and its root -/
+  auxRands : List El := []
+  auxCommit : Option Commit := none
+  auxRoot : Option Dg := none
 
 /-- steps 0–5 of `Prover::generate_proof::<E>` -/
 def phase1 (J : Inst) (E : EOps) (d : Desc) (trace : List (List Nat)) (o : Serde.ProofOptions) : PRes Phase1 :=
@@ -312,6 +472,110 @@ def phase1 (J : Inst) (E : EOps) (d : Desc) (trace : List (List Nat)) (o : Serde
                 z := z, c4 := c4, oodTrace := oodTrace, oodEvals := oodEvals, c6 := c6, deep := deep, c7 := c7,
                 deepCoeffs := dp, deepEvals := xs.map fun x => Divisor.polyEval E.div dp x }
 
+/-- steps 0–5 of `generate_proof::<E>` for a description with an auxiliary segment `x` (no Lagrange kernel column)
+    whose columns follow the generation rules `gens` -/
+def phase1Aux (J : Inst) (E : EOps) (d : Desc) (x : AuxDesc) (gens : List AuxGen) (trace : List (List Nat))
+    (o : Serde.ProofOptions) : PRes Phase1 :=
+  let K := coinOps J E
+  let B := baseOps J.I J.norm
+  let n := d.air.n
+  let lde := n * o.blowup
+  let ctx := contextAux J d x o
+  let ti := ctx.traceInfo
+  if trace.length ≠ d.air.width ∨ trace.any (fun c => c.length ≠ n) then .error "GenTrace::new"
+  else if x.lagrange then .error "Lagrange kernel column: not modelled"
+  else if gens.length ≠ x.width then .error "auxiliary generation rules"
+  else if !ctx.wf then .error "ProofOptions::new / TraceInfo::new / Context::new"
+  else
+    match pubInputs d J.I.M trace, Parse.airNew (frontAir J d) ti o with
+    | none, _ => .error "get_pub_inputs"
+    | _, none => .error "AIR::new"
+    | some pubs, some ncols =>
+      let cells := traceCells J trace
+      match cells.mapM (Divisor.interpolate B.div) with
+      | none => .error "interpolate_columns"
+      | some polysB =>
+        let xsB := ldePoints J lde
+        if xsB.length ≠ lde then .error "StarkDomain::new" else
+        match commitRows J (evalRows B polysB xsB) with
+        | .error e => .error e
+        | .ok tc =>
+        match tc.root with
+        | .error e => .error e
+        | .ok troot =>
+        let c1 := K.reseed (K.new (VerifierChecks.coinSeed J.I.bytes ctx (pubs.map (· % J.I.M)))) troot
+        -- the auxiliary segment: random elements, columns, polynomials, LDE, commitment
+        match VerifierChecks.drawMany K x.numRands c1 with
+        | none => .error "get_aux_rand_elements"
+        | some (rands, c1a) =>
+        let mainRows := (List.range n).map fun r => cells.map fun col => embedCell E ((col[r]?).getD [])
+        let perRows := (List.range n).map fun r => d.air.periodic.map fun pc => embedInt E ((pc[r % pc.length]?).getD 0)
+        match buildAux E gens rands mainRows perRows with
+        | none => .error "build_aux_trace"
+        | some auxCols =>
+        match auxCols.mapM (Divisor.interpolate E.div) with
+        | none => .error "interpolate_columns"
+        | some auxPolys =>
+        let xs := xsB.map (embedCell E)
+        match commitRows J (evalRows E auxPolys xs) with
+        | .error e => .error e
+        | .ok ac =>
+        match ac.root with
+        | .error e => .error e
+        | .ok aroot =>
+        let c2 := K.reseed c1a aroot
+        if (VerifierChecks.checkMain d.air J.I.M (trace.map (·.map (· % J.I.M))) pubs).isSome then .error "Trace::validate"
+        else
+        let nT := d.air.constraints.length + x.cons.length
+        let nA := d.air.assertions.length + x.asserts.length
+        match VerifierChecks.drawMany K (nT + nA) c2 with
+        | none => .error "get_constraint_composition_coeffs"
+        | some (coeffs, c3) =>
+        let mainPolys := polysB.map (·.map (embedCell E))
+        let offset := E.ofBase (J.I.new J.I.generator)
+        match prepOf E d pubs ti rands, Composition.mkDomain E.div n (Protocol.ceBlowup (d.degs ++ x.degs)) o.blowup offset with
+        | none, _ => .error "BoundaryConstraints::new"
+        | _, none => .error "StarkDomain::new"
+        | some (air, P), some D =>
+        match Composition.compositionTrace E.div (fun a b => a == b) air P D Composition.smallPolyDegree
+            (fun j => (mainPolys[j]?).getD []) (fun j => (auxPolys[j]?).getD []) (cell E rands) (coeffs.take nT)
+            ((coeffs.drop nT).take nA) with
+        | none => .error "ConstraintEvaluator::evaluate"
+        | some compTrace =>
+        match Composition.compositionPoly E.div D compTrace ncols with
+        | none => .error "CompositionPoly::new"
+        | some cols =>
+        match commitRows J (evalRows E cols xs) with
+        | .error e => .error e
+        | .ok cc =>
+        match cc.root with
+        | .error e => .error e
+        | .ok croot =>
+        match K.draw (K.reseed c3 croot) with
+        | none => .error "get_ood_point"
+        | some (z, c4) =>
+        match rootRaw J.I (Nat.log2 n) with
+        | none => .error "get_root_of_unity"
+        | some g =>
+        let polys := mainPolys ++ auxPolys
+        let zg := E.mul z (E.ofBase g)
+        let oodCur := polys.map fun p => Divisor.polyEval E.div p z
+        let oodNxt := polys.map fun p => Divisor.polyEval E.div p zg
+        let oodTrace := Serde.interleave oodCur oodNxt
+        let oodEvals := Composition.evaluateAt E.div cols z
+        let c6 := K.reseed (K.reseed c4 (hashEls J oodTrace)) (hashEls J oodEvals)
+        match VerifierChecks.drawMany K (ti.main + ti.aux + ncols) c6 with
+        | none => .error "get_deep_composition_coeffs"
+        | some (deep, c7) =>
+        match deepPoly E n z zg polys oodCur oodNxt cols oodEvals (deep.take (ti.main + ti.aux)) (deep.drop (ti.main + ti.aux)) with
+        | .error e => .error e
+        | .ok dp =>
+          .ok { ctx := ctx, pubs := pubs, ncols := ncols, polys := polys, traceCommit := tc, troot := troot, c1 := c1,
+                coeffs := coeffs, c3 := c3, compTrace := compTrace, compCols := cols, consCommit := cc, croot := croot,
+                z := z, c4 := c4, oodTrace := oodTrace, oodEvals := oodEvals, c6 := c6, deep := deep, c7 := c7,
+                deepCoeffs := dp, deepEvals := xs.map fun x => Divisor.polyEval E.div dp x,
+                auxRands := rands, auxCommit := some ac, auxRoot := some aroot }
+
 /-- step 6: what the FRI commit phase leaves behind -/
 structure Phase2 where
   fri : FriState
@@ -364,6 +628,8 @@ structure Run where
   p1 : Phase1
   p2 : Phase2
   p3 : Phase3
+  /-- the opening of the auxiliary segment at the query positions, if there is one -/
+  auxOpen : Option (VerifierChecks.Opening El Dg) := none
 
 def Run.ctx (r : Run) : Serde.Context := r.p1.ctx
 def Run.pubs (r : Run) : List Nat := r.p1.pubs
@@ -371,7 +637,7 @@ def Run.positions (r : Run) : List Nat := r.p3.positions
 
 /-- the part of the proof the verifier reads before it draws the query positions -/
 def Run.cm (r : Run) : VerifierChecks.Committed El Dg where
-  traceRoots := [r.p1.troot]
+  traceRoots := r.p1.troot :: r.p1.auxRoot.toList
   constraintRoot := r.p1.croot
   oodTrace := r.p1.oodTrace
   oodEvals := r.p1.oodEvals
@@ -381,15 +647,19 @@ def Run.cm (r : Run) : VerifierChecks.Committed El Dg where
 
 /-- the part it reads afterwards -/
 def Run.op (r : Run) : VerifierChecks.Opened El Dg where
-  traceOpenings := [r.p3.traceOpen]
+  traceOpenings := r.p3.traceOpen :: r.auxOpen.toList
   constraintOpening := r.p3.consOpen
   friLayers := r.p3.friOpen
   remainder := r.p2.remainder
   numPartitions := 1
 
-/-- `Prover::generate_proof::<E>` -/
-def proveRun (J : Inst) (E : EOps) (d : Desc) (trace : List (List Nat)) (o : Serde.ProofOptions) : PRes Run :=
-  match phase1 J E d trace o with
+/-- `Prover::generate_proof::<E>`; `gens` = the generation rules of the auxiliary columns (the family's
+    `build_aux_trace`), unused without an auxiliary segment -/
+def proveRun (J : Inst) (E : EOps) (d : Desc) (trace : List (List Nat)) (o : Serde.ProofOptions)
+    (gens : List AuxGen := []) : PRes Run :=
+  match (match d.aux with
+         | none => phase1 J E d trace o
+         | some x => phase1Aux J E d x gens trace o) with
   | .error e => .error e
   | .ok p1 =>
     match phase2 J E o (d.air.n * o.blowup) p1.deepEvals p1.c7 with
@@ -397,7 +667,13 @@ def proveRun (J : Inst) (E : EOps) (d : Desc) (trace : List (List Nat)) (o : Ser
     | .ok p2 =>
       match phase3 J E o (d.air.n * o.blowup) p1 p2 with
       | .error e => .error e
-      | .ok p3 => .ok ⟨p1, p2, p3⟩
+      | .ok p3 =>
+        match p1.auxCommit with
+        | none => .ok ⟨p1, p2, p3, none⟩
+        | some ac =>
+          match ac.openAt J p3.positions with
+          | .ok ao => .ok ⟨p1, p2, p3, some ao⟩
+          | .error e => .error e
 
 /-! ## 6. Serialization -/
 
@@ -423,7 +699,8 @@ def proofOf (J : Inst) (r : Run) : PRes Serde.Proof :=
   let deg := r.ctx.options.fieldExt
   let e := VerifierChecks.extElem J.I deg
   let cdeint := Serde.deinterleave r.cm.oodTrace
-  match r.op.traceOpenings.mapM (queriesOf J 1), queriesOf J deg r.op.constraintOpening,
+  match (r.op.traceOpenings.zipIdx.mapM fun oi => queriesOf J (if oi.2 = 0 then 1 else deg) oi.1),
+      queriesOf J deg r.op.constraintOpening,
       r.op.friLayers.mapM (friLayerOf J deg),
       Serde.oodSetTraceStates e (cdeint.1.map (canon J)) (cdeint.2.map (canon J)) none,
       Serde.oodSetEvaluations e (r.cm.oodEvals.map (canon J)) with
@@ -445,20 +722,23 @@ def proofOf (J : Inst) (r : Run) : PRes Serde.Proof :=
 
 /-- `Prover::prove`: dispatch on the field extension of the options (`UnsupportedFieldExtension` is the only
     `ProverError` this can return; all three instances support both extensions) -/
-def refProveRun (J : Inst) (d : Desc) (trace : List (List Nat)) (o : Serde.ProofOptions) : PRes Run :=
+def refProveRun (J : Inst) (d : Desc) (trace : List (List Nat)) (o : Serde.ProofOptions)
+    (gens : List AuxGen := []) : PRes Run :=
   match extOps J o.fieldExt with
   | none => .error "FieldExtension"
-  | some E => proveRun J E d trace o
+  | some E => proveRun J E d trace o gens
 
 /-- **the reference prover**: the proof object -/
-def refProveProof (J : Inst) (d : Desc) (trace : List (List Nat)) (o : Serde.ProofOptions) : PRes Serde.Proof :=
-  match refProveRun J d trace o with
+def refProveProof (J : Inst) (d : Desc) (trace : List (List Nat)) (o : Serde.ProofOptions)
+    (gens : List AuxGen := []) : PRes Serde.Proof :=
+  match refProveRun J d trace o gens with
   | .ok r => proofOf J r
   | .error e => .error e
 
 /-- **the reference prover**: `prove(trace).to_bytes()` -/
-def refProve (J : Inst) (d : Desc) (trace : List (List Nat)) (o : Serde.ProofOptions) : PRes (List Nat) :=
-  match refProveProof J d trace o with
+def refProve (J : Inst) (d : Desc) (trace : List (List Nat)) (o : Serde.ProofOptions)
+    (gens : List AuxGen := []) : PRes (List Nat) :=
+  match refProveProof J d trace o gens with
   | .ok p => if Serde.proof.wpanic p then .error "Proof::write_into" else .ok (Serde.proof.enc p)
   | .error e => .error e
 
